@@ -1,2 +1,8 @@
 import P2P.Props.C10
-#print axioms P2P.Props.C10.placeholder
+#print axioms P2P.Props.C10.cif_line_is_pdb_line
+#print axioms P2P.Props.C10.cif_pdb_agree
+#print axioms P2P.Props.C10.cif_record_is_row
+#print axioms P2P.Props.C10.first_model_only
+#print axioms P2P.Props.C10.altloc_marker_witness
+#print axioms P2P.Props.C10.altloc_icode_name4_witness
+#print axioms P2P.Props.C10.auth_chain_witness
